@@ -9,7 +9,9 @@ claim("C03",
       "DESIGN.md §4 C03")
 claim("C16",
       "Proof that a tier rotates cyclically for ever (sequentially) and that its index stays in range; whole-program "
-      "whitelist of writers of the tier index. Partial: reply parsing, cross-goroutine cancellation are outside.",
+      "whitelist of writers of the tier index; that an HTTP announce reads at most the configured response size; that "
+      "decoding a compact peer list never indexes out of range and yields one address per six bytes or an error. "
+      "Partial: bencoded reply parsing, UDP transaction matching and cross-goroutine cancellation are outside.",
       "DESIGN.md §4 C16")
 
 claim("C15",
@@ -83,7 +85,7 @@ claim("C14",
       "DESIGN.md §4 C14")
 
 claim("C17",
-      "Proof of the guard-before-insert obligations at the sites that open connections (accept and dial caps hold in the state in which a handshaker is created) and of the outstanding-request cap (result never exceeds MaxRequestsOut, whatever a peer advertises); that the address queue counts every insertion and every replacement exactly once towards the pushed source (the step that keeps the per-source counters summing to the queue length). Partial: token buckets, RAM reservations across goroutines, the resource manager and the agreement between the queue's slice and its external btree are outside (see evidence).",
+      "Proof of the guard-before-insert obligations at the sites that open connections (accept and dial caps hold in the state in which a handshaker is created) and of the outstanding-request cap (result never exceeds MaxRequestsOut, whatever a peer advertises); that the address queue counts every insertion and every replacement exactly once towards the pushed source (the step that keeps the per-source counters summing to the queue length). For the resource manager (generic code, verified once on its generic body): an immediate grant is made exactly when the amount fits and leaves 0 <= available <= limit, its assertion cannot fire, the candidate picked for a deferred grant fits into what is available, removing a queued request keeps the others' amounts, and requests and releases are sent with non-negative amounts. Partial: token buckets, RAM reservations across goroutines, the manager's loop as a whole (queued amounts stay non-negative on insertion is not proved) and the agreement between the queue's slice and its external btree are outside (see evidence).",
       "DESIGN.md §4 C17")
 
 claim("C18",
